@@ -149,7 +149,7 @@ def judge_smtp(cfg, script, w):
                                 deciding[r].add('perm')     # an undecodable challenge: either class, but a relay error
         desc = 'script %r (%s%s n=%d%s): attempt -> %s %r; peer accepted %r' % (
             script, 'LMTP' if cfg.get('lmtp') else 'SMTP', '' if cfg.get('pipelining', True) else ' no-pipelining', cfg['n'],
-            ''.join(' %s=%r' % (k, cfg[k]) for k in ('tls', 'tls_required', 'auth', 'connect', 'envelopes', 'pool_size') if cfg.get(k)),
+            ''.join(' %s=%r' % (k, cfg[k]) for k in ('tls', 'tls_required', 'auth', 'cred_form', 'connect', 'envelopes', 'pool_size') if cfg.get(k)),
             whole, per, sorted(accepted))
         if whole == 'blocked':
             out.append((dict(base, kind='attempt-never-returned'), desc))
@@ -649,6 +649,8 @@ def smtp_configs(tier):
         cfgs.append(dict(lmtp=lmtp, n=2, tls='starttls', tls_required=True, dev=1 if tier == 'quick' else 2))
         cfgs.append(dict(lmtp=lmtp, n=2, tls='starttls', tls_required=False, dev=1))
         cfgs.append(dict(lmtp=lmtp, n=2, tls='starttls', auth=True, dev=1))
+        for form in ('callable', 'authzid', 'mech-login'):
+            cfgs.append(dict(lmtp=lmtp, n=1, tls='starttls', auth=True, cred_form=form, ehlo_callable=(form == 'callable'), dev=1))
         # AUTH lines that offer mechanisms the client does not implement, only such mechanisms, or none at all
         for line in ('AUTH GSSAPI PLAIN LOGIN', 'AUTH NTLM GSSAPI', 'AUTH', 'AUTH=PLAIN LOGIN'):
             cfgs.append(dict(lmtp=lmtp, n=1, tls='starttls', auth=line, dev=1 if line.endswith('LOGIN') else 0))
